@@ -211,6 +211,31 @@ func TestVerifC05LateReply(t *testing.T) {
 		var aOutcome []string
 		var pending []string // judged after the faults are cleared
 		faultyAsked := false
+		// phase B (after every statement of phase A): every kind over the other measurement, at once, all nodes up
+		var bkinds []string
+		phaseB := func() {
+			order := rapid.Permutation(vkIota(len(bs))).Draw(rt, "phaseBOrder")
+			bkinds = bkinds[:0]
+			for _, bi := range order {
+				st := bs[bi]
+				bkinds = append(bkinds, st.Kind)
+				r := vkExecRetry(cl, coord, db, st.Text)
+				if vkIsTimeout(r.Err) {
+					vkSetupFailed(rt, "%q with every node up timed out repeatedly on a loaded machine (reader timeout %v): %s", st.Text, vkReaderTimeout, r.Err)
+				}
+				if r.Err != "" {
+					rt.Fatalf("%s %q on node %d with every node up failed (%s) right after %v ran against slow/cut owners %v (rf=%d)",
+						verifkit.Sig("fault-free-query-error-after-slow-owner"), st.Text, coord, r.Err, akinds, fkinds, rf)
+				}
+				if st.Kind == "explain" && rf > 1 {
+					continue // which replica is costed is a free choice; replicas may differ in cache/file split
+				}
+				if r.String() != b0[bi].String() || st.Want(r) != "" {
+					rt.Fatalf("%s %q on node %d with every node up returned another answer right after %v ran against slow/cut owners %v (rf=%d, owners %v); statements of phase B so far: %v\n--- now\n%s\n--- before the slow requests\n%s",
+						verifkit.Sig("late-reply-answers-later-request"), st.Text, coord, akinds, fkinds, rf, owners, bkinds, r, b0[bi])
+				}
+			}
+		}
 		for k := 0; k < na; k++ {
 			ty := rapid.SampledFrom(types).Draw(rt, "slowRequestType")
 			tg := byType[ty][rapid.IntRange(0, len(byType[ty])-1).Draw(rt, "target")]
@@ -262,40 +287,20 @@ func TestVerifC05LateReply(t *testing.T) {
 				pending = append(pending, fmt.Sprintf("%s %q on node %d with slow/cut owners %v returned a result that differs from the fault-free result and is not an error (rf=%d, owners %v)\n--- under faults\n%s\n--- fault-free\n%s",
 					verifkit.Sig("silently-incomplete-result"), st.Text, coord, fkinds, rf, owners, r, a0[ai]))
 			}
-		}
-		for _, nd := range cl.nodes {
-			nd.proxy.setFault(vkFault{Kind: "up"})
-			nd.proxy.takeLog()
-			nd.proxy.mu.Lock()
-			for ; nd.proxy.avoided > 0; nd.proxy.avoided-- {
-				stats.Exclude("remote-stream-cut-at-frame-boundary")
+			// faults off, then every kind of request at once: what the slow owner left behind must not answer them
+			for _, nd := range cl.nodes {
+				nd.proxy.setFault(vkFault{Kind: "up"})
+				nd.proxy.takeLog()
+				nd.proxy.mu.Lock()
+				for ; nd.proxy.avoided > 0; nd.proxy.avoided-- {
+					stats.Exclude("remote-stream-cut-at-frame-boundary")
+				}
+				nd.proxy.mu.Unlock()
 			}
-			nd.proxy.mu.Unlock()
-		}
-		if len(pending) > 0 {
-			rt.Fatalf("%s", pending[0])
-		}
-		// phase B: every kind over the other measurement, at once, all nodes up
-		order := rapid.Permutation(vkIota(len(bs))).Draw(rt, "phaseBOrder")
-		var bkinds []string
-		for _, bi := range order {
-			st := bs[bi]
-			bkinds = append(bkinds, st.Kind)
-			r := vkExecRetry(cl, coord, db, st.Text)
-			if vkIsTimeout(r.Err) {
-				vkSetupFailed(rt, "%q with every node up timed out repeatedly on a loaded machine (reader timeout %v): %s", st.Text, vkReaderTimeout, r.Err)
+			if len(pending) > 0 {
+				rt.Fatalf("%s", pending[0])
 			}
-			if r.Err != "" {
-				rt.Fatalf("%s %q on node %d with every node up failed (%s) right after %v ran against slow/cut owners %v (rf=%d)",
-					verifkit.Sig("fault-free-query-error-after-slow-owner"), st.Text, coord, r.Err, akinds, fkinds, rf)
-			}
-			if st.Kind == "explain" && rf > 1 {
-				continue // which replica is costed is a free choice; replicas may differ in cache/file split
-			}
-			if r.String() != b0[bi].String() || st.Want(r) != "" {
-				rt.Fatalf("%s %q on node %d with every node up returned another answer right after %v ran against slow/cut owners %v (rf=%d, owners %v); statements of phase B so far: %v\n--- now\n%s\n--- before the slow requests\n%s",
-					verifkit.Sig("late-reply-answers-later-request"), st.Text, coord, akinds, fkinds, rf, owners, bkinds, r, b0[bi])
-			}
+			phaseB()
 		}
 		cls := []string{fmt.Sprintf("rf:%d", rf), fmt.Sprintf("localOwns:%v", localOwns)}
 		for _, k := range akinds {
